@@ -877,10 +877,12 @@ pub fn run_c01(seed: u64, run: u64, stats: &mut Stats, inspect: bool) -> Vec<Vio
     let mut cfg = root.sub(1);
     let mut aux = root.sub(3);
     let mut g = Rng::new(mix(&[rs, 2]));
-    let size = pick_size(&mut cfg);
+    // the Miri configuration runs far fewer cases: bias it to the extremes
+    // (maximum lengths) and spend them on more distinct streams
+    let size = if inspect && cfg.bool() { 3 } else { pick_size(&mut cfg) };
     let chunk_seed = mix(&[rs, 4]);
     let (op, base) = gen_reader_input(kind, &mut g, size, &mut cfg);
-    let variants = damaged_variants(&base, &mut cfg, &mut aux, kind, 6);
+    let variants = damaged_variants(&base, &mut cfg, &mut aux, kind, if inspect { 4 } else { 6 });
     let mut out = Vec::new();
     let mut evals = 0u64;
     for (vi, stream) in variants.into_iter().enumerate() {
@@ -929,7 +931,15 @@ pub fn run_c01(seed: u64, run: u64, stats: &mut Stats, inspect: bool) -> Vec<Vio
                 inspect,
             },
         ];
-        for j in 0..n_calls.min(8) {
+        let fault_calls: Vec<usize> = if inspect {
+            // two seeded call indices instead of the first eight
+            let mut v: Vec<usize> = (0..2.min(n_calls)).map(|_| aux.usize_range(0, n_calls - 1)).collect();
+            v.dedup();
+            v
+        } else {
+            (0..n_calls.min(8)).collect()
+        };
+        for j in fault_calls {
             plans.push(ReaderPlan {
                 chunking: Chunking::Whole,
                 fault: Some((j, if aux.bool() { HardFault::Error } else { HardFault::Zero })),
